@@ -651,6 +651,31 @@ func (e *Env) call(x *ECall) (Val, error) {
 		}
 		comp := g.elemComp(SInt)
 		return Val{T: sx("str.ofbytes", sel(g.hget(e.heap, comp), sx("s-arr", a.T)), sx("s-off", a.T), sx("s-len", a.T)), S: SStr, Ty: types.Typ[types.String]}, nil
+	case "streq":
+		// streq(s, t): s == t, provable by extensionality (same length, same bytes); the instance of the
+		// extensionality theorem for this pair is added to the context (sound: strings are finite byte sequences)
+		if err := need(2); err != nil {
+			return Val{}, err
+		}
+		a, b := args[0].T, args[1].T
+		if !strings.Contains(a, "|q!") && !strings.Contains(b, "|q!") && !g.S.declared["streq:"+a+"="+b] {
+			g.S.declared["streq:"+a+"="+b] = true
+			// the witness of a difference is a Skolem constant, so that the goal-directed instantiation can use it
+			k := g.S.freshName("sk!streq")
+			g.S.declare(k, "Int")
+			g.S.instTerms = append(g.S.instTerms, k, sx("+", k, "1"))
+			g.S.assert(imp(and(eq(sx("slen", a), sx("slen", b)),
+				imp(and(sx("<=", "0", k), sx("<", k, sx("slen", a))), eq(sx("sat", a, k), sx("sat", b, k)))), eq(a, b)))
+			g.S.assert(imp(and(eq(sx("slen", a), sx("slen", b)),
+				fmt.Sprintf("(forall ((i Int)) (! (=> (and (<= 0 i) (< i (slen %s))) (= (sat %s i) (sat %s i))) :pattern ((sat %s i)) :pattern ((sat %s i))))", a, a, b, a, b)), eq(a, b)))
+		}
+		return Val{T: eq(a, b), S: SBool}, nil
+	case "arrstr":
+		// arrstr(a, off, n): the string made of a[off..off+n) for a ghost byte array a
+		if err := need(3); err != nil {
+			return Val{}, err
+		}
+		return Val{T: sx("str.ofbytes", args[0].T, args[1].T, args[2].T), S: SStr, Ty: types.Typ[types.String]}, nil
 	case "errors.Is", "errIs":
 		if err := need(2); err != nil {
 			return Val{}, err
@@ -773,6 +798,11 @@ func (e *Env) call(x *ECall) (Val, error) {
 			return Val{}, err
 		}
 		return g.zero(t), nil
+	case "isInf":
+		if err := need(1); err != nil {
+			return Val{}, err
+		}
+		return Val{T: sx("fp.isInfinite", args[0].T), S: SBool}, nil
 	case "isNaN":
 		if err := need(1); err != nil {
 			return Val{}, err
